@@ -66,6 +66,9 @@ class UCGEInitialize(UCGInitialize):
 
     def _define_initialize(self):
 
+        # start from an empty circuit: the definition may be rebuilt (e.g. on a copy of the gate)
+        self.circuit = qiskit.QuantumCircuit(self.register)
+
         children = self.params
         parent = self._update_parent(children)
         tree_level = self.num_qubits
